@@ -41,7 +41,7 @@ def run_inter(db, case):
 
 def run(ctx):
     thorough = ctx.tier == "thorough"
-    ctx.rule = ("D1: every ordered list of <= %s intervals over positions 1..6 x 6 seqid/strand/type patterns x 4 option sets (MC_Intervals mode inter: Inter_Alg = Inter_Decl, "
+    ctx.rule = ("D1: every ordered list of <= %s intervals over positions 1..6 x 7 seqid/strand/type patterns x 4 option sets (MC_Intervals mode inter: Inter_Alg = Inter_Decl, "
                 "N-1 law); one case in %d is replayed through FeatureDB.interfeatures (gap geometry, type, strand, per-key sorted attribute union, joined IDs, inputs and "
                 "database unchanged); D2: random gene models (1-2 genes, 1-2 transcripts, 0-4 exons touching/overlapping/shuffled, either strand) through create_introns and "
                 "create_splice_sites against Introns_Decl / Splice_Decl (Gen_Intervals). Non-trivial: >= 3 features, a touching/overlapping pair, a seqid change or mixed "
